@@ -104,12 +104,19 @@ def run(case: dict, lean: Lean) -> Outcome:
         pc = pb.build().clone()
         if pc.config_hash != hash0 or (pc.name, pc.version) != (pb.name, pb.version): failed.append("clone: name/version lost or hash changes on reload")
     except Exception as e: failed.append(f"clone raised {type(e).__name__}")
+    # a cloned *builder* describes the same pipeline
+    try:
+        bc = pb.clone()
+        if bc.build_config(include_hash=False).model_dump_json(exclude_none=True) != real: failed.append("builder clone: the clone's configuration differs")
+    except Exception as e: failed.append(f"builder clone raised {type(e).__name__}")
     multi = any(i["types"] and len(i["types"]) > 1 for i in case["inputs"])
     if pb.name is None and pb.version is None and multi and failed and all(("hash changes on reload" in f) or ("hash-mismatch warning" in f) for f in failed):
         key = "config hash depends on PYTHONHASHSEED through the input type set"       # the same set rebuilt in another insertion order iterates differently
     if (pb.name is not None or pb.version is not None) and failed and all(("clone: name/version lost" in f) or ("name/version lost" in f) or ("hash changes on reload" in f) or ("hash-mismatch warning" in f) for f in failed):
         key = "from_config drops the pipeline name and version"
-    if any(c["kind"] == "cls-nocfg" for c in case["comps"]) and failed and not any("name/version lost" in f and "hash" not in f for f in failed) \
+    if failed and all(f.startswith("builder clone:") for f in failed) and (pb.name is not None or pb.version is not None):
+        key = "PipelineBuilder.clone() drops the pipeline's name and version"
+    elif any(c["kind"] == "cls-nocfg" for c in case["comps"]) and failed and not any("name/version lost" in f and "hash" not in f for f in failed) \
             and all(("hash changes on reload" in f) or ("hash-mismatch warning" in f) or ("clone:" in f) for f in failed):
         # established by comparing the documents: the class form writes `config: null`, the reloaded instance `config: {}`
         key = "a component class without a configuration class is written with config null but reloads with config {} (hash changes)"
